@@ -42,6 +42,9 @@ type cenv struct {
 	tap    *apix.Tap
 	faults bool
 	note   string
+	// failNextSync: the next fdatasync fails once (set by a writer body right before it returns, so it is that
+	// writer's own commit that fails)
+	failNextSync bool
 }
 
 func (e *cenv) failf(f string, a ...interface{}) {
@@ -113,6 +116,10 @@ func openEnv(s *vsync.Session, ps int, flt string, fill int, opt func(o *bolt.Op
 	e.tap = &apix.Tap{}
 	e.tap.OnIO = append(e.tap.OnIO, func(ev *apix.IOEvent) error {
 		vsync.Yield() // every I/O call is a scheduling point
+		if e.failNextSync && ev.Op == bolt.VerifFdatasync {
+			e.failNextSync = false
+			return &apix.InjectedError{What: "fdatasync"}
+		}
 		return nil
 	})
 	apix.SetTap(e.tap)
@@ -181,6 +188,8 @@ func (e *cenv) update(who string, keys []string, mode string) *txrec {
 				return fmt.Errorf("body error")
 			case "panic":
 				panic("boom")
+			case "iofail":
+				e.failNextSync = true // this transaction's commit fails at its first sync
 			}
 			return nil
 		})
